@@ -7,7 +7,7 @@
    An object pointer is modelled by the object record (gp_index is its
    identity); NULL is None.  Matrices are row-major lists of uint64 values.
 
-   The three switches FIX_* select the statement as it is in the current
+   The switches FIX_* select the statement as it is in the current
    source (false) or as it is after the corresponding patch in
    /verif/patches (true). *)
 From Coq Require Import List NArith ZArith Bool Lia.
@@ -19,6 +19,7 @@ Local Open Scope N_scope.
 Definition FIX_NULL_FIRST : bool := false.   (* add_values NULL scan starts at 0 instead of 1 *)
 Definition FIX_MERGE_PORTS : bool := false.  (* objs[j] = NULL inside if (is_nvswitch(objs[j])) *)
 Definition FIX_BY_NAME_KIND : bool := false. (* get_by_name passes kind 0 instead of KIND_ALL *)
+Definition FIX_XML_KIND_ZERO : bool := false. (* XML import no longer treats kind="0" as a missing attribute *)
 
 Definition TYPE_NONE : N := HWLOC_OBJ_TYPE_NONE_U.
 Definition two64 : N := 18446744073709551616.
@@ -379,7 +380,7 @@ Definition dup (t : topo) : topo := Topo (t_objs t) (t_levels t) (map dup_one (t
 (* one <distances2>/<distances2hetero> element read back: None = whole import fails (goto out),
    Some None = ignored *)
 Definition xml_import_one (d : idist) : option (option idist) :=
-  if (d_nb d =? 0)%nat || (d_kind d =? 0) then None
+  if (d_nb d =? 0)%nat || (negb FIX_XML_KIND_ZERO && (d_kind d =? 0)) then None
   else if (d_nb d <? 2)%nat then Some None
   else
     let nb := d_nb d in
